@@ -24,9 +24,22 @@ struct Opts {
     anc: bool,
 }
 
+const ANC_NOT_COMPARED: &str = "anc-merge: graph holds a merge with comparable parents, braid order not compared";
+
+thread_local! {
+    /// the graph delivered so far in the current case holds a merge with comparable parents
+    static ANC_GRAPH: std::cell::Cell<bool> = const { std::cell::Cell::new(false) };
+}
+
+/// stable marker of the known finding "anc-merge" (known_findings.json matches on it): violations
+/// observed on a graph that holds a merge command whose two parents are comparable (or equal)
+fn mark(anc: bool, kind: &str) -> String {
+    if anc { format!("anc-merge ({kind}): ") } else { String::new() }
+}
+
 /// every appending command of anc*(heads) is in the committed `log` fact exactly once, after its
 /// appending ancestors
-fn check_log(rec: &mut Recorder, lg: &LightGraph, heads: &[CmdId], rows: &[FactRow], label: &str) {
+fn check_log(rec: &mut Recorder, lg: &LightGraph, heads: &[CmdId], rows: &[FactRow], label: &str, anc: bool) {
     let region = lg.og.anc_self(heads);
     let mut by_tag: BTreeMap<String, CmdId> = BTreeMap::new();
     for id in &region {
@@ -50,7 +63,7 @@ fn check_log(rec: &mut Recorder, lg: &LightGraph, heads: &[CmdId], rows: &[FactR
             }
             Some(id) => {
                 if seen.insert(*id, i).is_some() {
-                    rec.oracle_fail(format!("{label}: command {t} was applied twice (log fact lists it twice)"));
+                    rec.oracle_fail(format!("{label}: {}command {t} was applied twice (log fact lists it twice)", mark(anc, "applied-twice")));
                     return;
                 }
             }
@@ -71,7 +84,7 @@ fn check_log(rec: &mut Recorder, lg: &LightGraph, heads: &[CmdId], rows: &[FactR
         let mine = seen.get(&c.id).map(|p| *p as i64);
         if let Some(p) = mine {
             if up >= p {
-                rec.oracle_fail(format!("{label}: command {} applied before one of its ancestors (log fact order)", short(c.id)));
+                rec.oracle_fail(format!("{label}: {}command {} applied before one of its ancestors (log fact order)", mark(anc, "before-ancestor"), short(c.id)));
                 return;
             }
         }
@@ -95,7 +108,7 @@ fn check_calls_plain(rec: &mut Recorder, lg: &LightGraph, calls: &[CmdId], flags
     for (i, c) in calls.iter().enumerate() {
         for d in &calls[i + 1..] {
             if lg.og.is_anc(*d, *c) {
-                rec.oracle_fail(format!("{label}: {what}: command {} evaluated before its ancestor {} (braid rule calls {})", short(*c), short(*d), show_ids(calls)));
+                rec.oracle_fail(format!("{label}: {what}: {}command {} evaluated before its ancestor {} (braid rule calls {})", mark(true, "before-ancestor"), short(*c), short(*d), show_ids(calls)));
                 return;
             }
         }
@@ -106,6 +119,11 @@ fn check_braid(rec: &mut Recorder, lg: &LightGraph, heads: &[CmdId], evs: &[Audi
     let calls = braid_calls(evs);
     let flags = braid_merge_flags(evs);
     if anc {
+        if ask_model {
+            // flagged request: on a graph with a comparable-parent merge the reference braid is not a
+            // linearisation, its order is not compared (the driver answers with the same literal)
+            rec.line(format!("braidorder-anc {}", ids_arg(heads)), ANC_NOT_COMPARED);
+        }
         check_calls_plain(rec, lg, &calls, &flags, what, label);
         rec.count_n("braid_calls", calls.len() as u64);
         return;
@@ -154,13 +172,27 @@ fn run_case(rec: &mut Recorder, sched: &Schedule, o: &Opts) -> String {
     let (mut multi, mut merges, mut n_merge) = (0u64, 0u64, 0usize);
     let mut spilled = SpillStats::default();
     let label = &o.label;
+    let mut anc = o.anc;
+    ANC_GRAPH.with(|f| f.set(anc));
     for batch in sched {
         let mut trx = r.transaction();
         let mut mark = lg.len();
         for c in batch {
             let _ = audit_take();
             let _ = spill_take();
+            // a merge whose parents are comparable (or equal)?  flagged before the call: a panic inside
+            // the call is then attributed to the anc-merge graph as well
+            let comparable = match c.parent {
+                Prior::Merge(l, rr) => l.id == rr.id || lg.og.is_anc(l.id, rr.id) || lg.og.is_anc(rr.id, l.id),
+                _ => false,
+            };
+            if comparable {
+                ANC_GRAPH.with(|f| f.set(true));
+            }
             let res = add_cs(&mut r, &mut trx, std::slice::from_ref(c));
+            if res.is_err() {
+                ANC_GRAPH.with(|f| f.set(anc));
+            }
             let evs = audit_take();
             let sp = spill_take();
             spilled.braid_writes += sp.braid_writes;
@@ -186,10 +218,16 @@ fn run_case(rec: &mut Recorder, sched: &Schedule, o: &Opts) -> String {
                         rec.oracle_fail(format!("{label}: adding {} made origin rule calls {} (expected {})", short(c.id), show_ids(&origin), show_ids(&want_origin)));
                     }
                     if let Prior::Merge(l, rr) = c.parent {
+                        if !anc && comparable {
+                            // from here on the graph holds a merge with comparable parents
+                            anc = true;
+                            ANC_GRAPH.with(|f| f.set(true));
+                            rec.count("cases_with_comparable_parent_merge");
+                        }
                         merges += 1;
                         n_merge += 1;
                         let ask = o.merge_sample <= 1 || n_merge % o.merge_sample == 0;
-                        check_braid(rec, &lg, &[l.id, rr.id], &evs, &format!("merge {} of {}", short(c.id), show_ids(&[l.id, rr.id])), label, ask, o.anc);
+                        check_braid(rec, &lg, &[l.id, rr.id], &evs, &format!("merge {} of {}", short(c.id), show_ids(&[l.id, rr.id])), label, ask, anc);
                     } else if !braid_calls(&evs).is_empty() {
                         rec.oracle_fail(format!("{label}: adding the non-merge command {} evaluated a braid", short(c.id)));
                     }
@@ -197,7 +235,7 @@ fn run_case(rec: &mut Recorder, sched: &Schedule, o: &Opts) -> String {
                 Err(e) => {
                     rec.count(&format!("add_err:{}", err_name(e)));
                     if let Prior::Merge(l, rr) = c.parent {
-                        if !o.anc && lg.og.cmds.contains_key(&l.id) && lg.og.cmds.contains_key(&rr.id) {
+                        if !anc && lg.og.cmds.contains_key(&l.id) && lg.og.cmds.contains_key(&rr.id) {
                             let want = lg.og.braid(&[l.id, rr.id]);
                             if !(matches!(e, ClientError::ParallelFinalize) && want.is_err()) {
                                 rec.oracle_fail(format!("{label}: merge {} failed with {} but the reference braid is {:?}", short(c.id), err_name(e), want.map(|x| show_ids(&x.1))));
@@ -223,7 +261,7 @@ fn run_case(rec: &mut Recorder, sched: &Schedule, o: &Opts) -> String {
                 }
                 if changed && heads.len() >= 2 {
                     multi += 1;
-                    check_braid(rec, &lg, &heads, &evs, "commit", label, true, o.anc);
+                    check_braid(rec, &lg, &heads, &evs, "commit", label, true, anc);
                 } else if !braid_calls(&evs).is_empty() {
                     rec.oracle_fail(format!("{label}: single-head commit evaluated a braid"));
                 }
@@ -238,14 +276,14 @@ fn run_case(rec: &mut Recorder, sched: &Schedule, o: &Opts) -> String {
                     rec.oracle_fail(format!("{label}: committed heads {} but frontier {}", show_ids(&got), show_ids(&want_heads)));
                 }
                 match r.facts() {
-                    Ok(rows) => check_log(rec, &lg, &heads, &rows, label),
+                    Ok(rows) => check_log(rec, &lg, &heads, &rows, label, anc),
                     Err(e) => rec.oracle_fail(format!("{label}: fact cache unreadable: {e}")),
                 }
             }
             Err(e) => {
                 rec.count(&format!("commit_err:{}", err_name(&e)));
                 let want = lg.og.braid(&lg.og.frontier());
-                if !o.anc && !(matches!(e, ClientError::ParallelFinalize) && want.is_err()) && !matches!(e, ClientError::StorageError(_)) {
+                if !anc && !(matches!(e, ClientError::ParallelFinalize) && want.is_err()) && !matches!(e, ClientError::StorageError(_)) {
                     rec.oracle_fail(format!("{label}: commit failed with {} but the reference braid is {:?}", err_name(&e), want.map(|x| show_ids(&x.1))));
                 }
                 lg.truncate(mark);
@@ -253,12 +291,12 @@ fn run_case(rec: &mut Recorder, sched: &Schedule, o: &Opts) -> String {
             }
         }
     }
-    if o.anc {
+    if anc {
         // stored state of every committed command: its log fact lists anc*(command) once each, ancestors first
         if let Ok(committed) = r.committed() {
             for c in &committed {
                 if let Ok(rows) = r.facts_at(c.address()) {
-                    check_log(rec, &lg, &[c.id], &rows, &format!("{label}: stored state at {}", short(c.id)));
+                    check_log(rec, &lg, &[c.id], &rows, &format!("{label}: stored state at {}", short(c.id)), true);
                 }
             }
         }
@@ -301,8 +339,9 @@ fn guarded_inner(rec: &mut Recorder, sched: &Schedule, o: &Opts, case: usize) ->
         Ok(s) => Some(s),
         Err(p) => {
             // keep the request lines of the case: the panic is replayable
-            rec.oracle_fail(format!("case {case}: panic in the real code: {p}"));
-            rec.panics.push(format!("case {case}: {p}"));
+            let m = if ANC_GRAPH.with(|f| f.get()) && p.contains("heap.is_empty()") { mark(true, "finalize-not-last-debug-assert") } else { String::new() };
+            rec.oracle_fail(format!("case {case}: {m}panic in the real code: {p}"));
+            rec.panics.push(format!("case {case}: {m}{p}"));
             if std::env::var("VH_TRACE_FAILS").is_ok() {
                 eprintln!("PANIC-SCHEDULE {}", serde_json::to_string(&schedule_lines(sched)).unwrap_or_default());
             }
@@ -435,7 +474,7 @@ fn main() {
             }
             for sc in &scheds {
                 rec.begin_case();
-                let o = Opts { merge_sample: if n > 400 { 97 } else { 1 }, label: format!("replay{k}"), anc: std::env::var("VH_FAMILY").ok().as_deref() == Some("anc-merge") };
+                let o = Opts { merge_sample: if n > 400 { 97 } else { 1 }, label: format!("replay{k}"), anc: false };
                 guarded(&mut rec, sc, &o, k);
             }
         }
@@ -471,8 +510,9 @@ fn main() {
     {
         let mut arng = Rng::new(args.seed ^ 0xA11C_E5);
         let equal = std::env::var("VH_ANC_EQUAL").is_ok();
-        // not part of the default run while the finding is open (the family fails on the real code)
-        let n = if only_anc { args.budget(400, 4000) } else { 0 };
+        // the default run holds a small deterministic share (known finding `anc-merge`: a change in how it
+        // manifests is seen)
+        let n = if only_anc { args.budget(400, 4000) } else { args.budget(12, 60) };
         for acase in 0..n {
             let p = DagParams {
                 max_nodes: arng.range(4, 20) as usize,
